@@ -1,6 +1,7 @@
 import Verif.Model.RemoveUnused
 import Verif.Proofs.RemoveUnused
 import Verif.Proofs.FlattenPipeline
+import Verif.Proofs.FlattenImport
 
 /-!
 # C06 — RemoveUnused removes exactly what nothing refers to (model of the removal phases)
@@ -67,6 +68,16 @@ theorem pipeline_removeUnused (fc : Facts) (x : Flatten.Ext) (o : Flatten.Opts) 
     ∀ kv ∈ s'.doc.getObj "definitions",
       (RemoveUnused.usedNames fc { refName := Flatten.refName x } s'.doc).contains kv.1 = true :=
   Proofs.FlattenPipeline.flattenLocal_removeUnused fc x o fuel s s' h hr
+
+/-- the same for `Flatten.flatten`, the pipeline with the real `importReferences` loop (bundles with
+    auxiliary documents; `spec.ResolveRefWithBase` across documents is an external function): the
+    import phase writes to the document only through `UpdateRef` and `Save` -/
+theorem pipeline_removeUnused_multi (fc : Facts) (x : Flatten.Ext) (o : Flatten.Opts) (fuel : Nat) (s s' : Flatten.St)
+    (h : Flatten.flatten fc x o fuel s = .ok s') (hr : o.removeUnused = true) :
+    s'.doc.getObj "parameters" = [] ∧ s'.doc.getObj "responses" = [] ∧
+    ∀ kv ∈ s'.doc.getObj "definitions",
+      (RemoveUnused.usedNames fc { refName := Flatten.refName x } s'.doc).contains kv.1 = true :=
+  Proofs.FlattenImport.flatten_removeUnused fc x o fuel s s' h hr
 
 /-- none of the rewriting phases can bring a shared section back: the replace primitives only
     rewrite below keys that exist -/
